@@ -252,6 +252,16 @@ impl ContinuationPool {
     }
 }
 
+/// Number of continuations currently parked in the pool (0 outside of a run)
+#[cfg(feature = "verif")]
+pub fn verif_pool_len() -> usize {
+    if CONTINUATION_POOL.is_set() {
+        CONTINUATION_POOL.with(|p| p.continuations.borrow().len())
+    } else {
+        0
+    }
+}
+
 /// A thin wrapper around a `Continuation` that returns it to a `ContinuationPool`
 /// when dropped, but only if it's reusable.
 pub struct PooledContinuation {
